@@ -4,7 +4,7 @@
        declared values, non-random fields are unchanged; the outcome matches satisfiability decided by
        brute-force enumeration of the random fields. *)
 From Coq Require Import ZArith List Bool.
-From PV Require Import Common.Bits Rand.BV Rand.Expr Rand.Lower Rand.Typing Rand.World Rand.Soft.
+From PV Require Import Common.Bits Rand.BV Rand.Expr Rand.Lower Rand.Typing Rand.World Rand.Soft Rand.Randset.
 Import ListNotations.
 Open Scope Z_scope.
 
@@ -254,3 +254,68 @@ Definition s_check (c : scase) (do_sat : bool) : Z :=
   a + b + f + o + (if (2 <=? sc_outcome c) || flags_ok c then 0 else 16) + (if (2 <=? sc_outcome c) || callbacks_ok c then 0 else 32)
   + (if (2 <=? sc_outcome c) || soft_terms_ok c then 0 else 64) + (if do_sat && negb (soft_values_ok c) then 128 else 0)
   + (if do_sat && (sc_outcome c <? 2) && negb (domains_ok c) then 256 else 0).
+
+(* ---- (A4) rand sets: which statements were handed to one solver instance ----
+   The fields a statement refers to, in the order the visitor meets them; Rand/Randset.build on these gives the model's
+   rand sets.  The code's top-level statements can be coarser than the model's (a foreach / dist is one statement there and
+   several here), so the comparison is: every rand set of the model lies inside one recorded solver instance. *)
+Fixpoint e_refs (e : expr) : list nat :=
+  match e with
+  | ELit _ _ _ => []
+  | EField id => [id]
+  | EBin _ l r => e_refs l ++ e_refs r
+  | ENot e => e_refs e
+  | EReset e => e_refs e
+  | EPart id _ _ => [id]
+  end.
+Fixpoint s_refs (s : stmt) : list nat :=
+  let all := fix all (l : list stmt) : list nat := match l with [] => [] | x :: t => s_refs x ++ all t end in
+  match s with
+  | SExpr e => e_refs e
+  | SIf c t f => e_refs c ++ all t ++ match f with Some fl => all fl | None => [] end
+  | SImplies c b => e_refs c ++ all b
+  | SUnique ids => ids
+  | SSoft e => e_refs e
+  end.
+Definition has_term (t : bvterm) (l : list bvterm) : bool := existsb (bvterm_eqb t) l.
+(* take the terms ts out of the first instance that holds the first of them *)
+Fixpoint take_from (ts : list bvterm) (insts : list (list bvterm)) : option (list (list bvterm)) :=
+  match ts with
+  | [] => Some insts
+  | t0 :: _ =>
+    match insts with
+    | [] => None
+    | i :: rest =>
+      if has_term t0 i
+      then (fix rm (l : list bvterm) (cur : list bvterm) : option (list (list bvterm)) :=
+              match l with
+              | [] => Some (cur :: rest)
+              | x :: l' => match remove_first x cur with Some cur' => rm l' cur' | None => None end
+              end) ts i
+      else option_map (cons i) (take_from ts rest)
+    end
+  end.
+Definition set_terms (c : scase) (r : rset) : list bvterm :=
+  flat_map (fun k => match nth_error (sc_hard c) k with
+                     | Some s => if is_soft s then [] else match lower_s (sc_G c) (sc_B c) false s with Some t => [t] | None => [] end
+                     | None => []
+                     end) (rs_stmts r).
+Definition partition_ok (c : scase) (insts : list (list bvterm)) : bool :=
+  let sets := build (map s_refs (sc_hard c)) in
+  let failed := sc_outcome c =? 1 in
+  (fix go (l : list rset) (cur : list (list bvterm)) : bool :=
+     match l with
+     | [] => true
+     | r :: t =>
+       match set_terms c r with
+       | [] => go t cur
+       | t0 :: ts =>
+         if failed && negb (existsb (has_term t0) cur) then go t cur     (* never reached: an earlier instance failed *)
+         else match take_from (t0 :: ts) cur with Some cur' => go t cur' | None => false end
+       end
+     end) sets insts.
+(* s_check plus bit 512: a rand set of the model was split over solver instances (only judged when the terms themselves
+   agree and the call ended normally or with SolveFailure) *)
+Definition s_check2 (c : scase) (do_sat : bool) (insts : list (list bvterm)) : Z :=
+  let code := s_check c do_sat in
+  code + (if Z.odd code || (2 <=? sc_outcome c) || partition_ok c insts then 0 else 512).
